@@ -49,3 +49,56 @@ fn append_counts() { append_counts_body() }
 #[cfg(all(not(kani), psc_verif_replay))]
 #[test]
 fn replay_append_counts() { vk::load_replay(); append_counts_body() }
+
+
+/// independent canonical Compact<u32> recogniser: Some((value, bytes used)) iff `b` starts with the canonical form
+fn spec_decode_compact_u32(b: &[u8]) -> Option<(u32, usize)> {
+    if b.len() == 0 { return None; }
+    let p = b[0];
+    match p & 3 {
+        0 => Some(((p >> 2) as u32, 1)),
+        1 => { if b.len() < 2 { return None; } let v = ((p as u32) | ((b[1] as u32) << 8)) >> 2; if v >= 64 { Some((v, 2)) } else { None } }
+        2 => { if b.len() < 4 { return None; } let v = ((p as u32) | ((b[1] as u32) << 8) | ((b[2] as u32) << 16) | ((b[3] as u32) << 24)) >> 2; if v >= (1 << 14) { Some((v, 4)) } else { None } }
+        _ => { if p != 3 || b.len() < 5 { return None; } let v = (b[1] as u32) | ((b[2] as u32) << 8) | ((b[3] as u32) << 16) | ((b[4] as u32) << 24); if v >= (1 << 30) { Some((v, 5)) } else { None } }
+    }
+}
+
+/// C15, whole function on ARBITRARY existing bytes (empty, malformed, canonical prefix + payload) and any reported item count:
+/// Ok(out) iff the input is empty or starts with a canonical count and the combined count fits u32; then
+/// out == compact(old + n) ++ payload.  Existing bytes bounded to 5 (prefix + up to 4 payload bytes); zero-sized items.
+fn append_any_prefix_body() {
+    let bytes: [u8; 5] = [vk::any_u8(), vk::any_u8(), vk::any_u8(), vk::any_u8(), vk::any_u8()];
+    let plen = vk::any_usize();
+    vk::assume(plen <= 5);
+    let n: usize = vk::any_usize();
+    let mut v: Vec<u8> = Vec::new();
+    let mut i = 0;
+    while i < plen { v.push(bytes[i]); i += 1; }
+    let r = append_or_new_impl::<(), _>(v, UnitIter { reported: n, actual: 0 });
+    let expect: Option<(u32, usize)> = if plen == 0 { Some((0, 0)) } else { spec_decode_compact_u32(&bytes[..plen]) };
+    match expect {
+        None => assert!(r.is_err(), "append accepted existing bytes that do not start with a canonical count"),
+        Some((old, used)) => {
+            let fits = (n as u128) + (old as u128) <= u32::MAX as u128;
+            match r {
+                Err(_) => assert!(!fits, "append failed although the combined count is representable"),
+                Ok(out) => {
+                    assert!(fits, "append returned Ok although old + n does not fit in u32");
+                    let (exp, elen) = spec_compact_u32(old.wrapping_add(n as u32));
+                    assert!(out.len() == elen + (plen - used), "appended encoding has the wrong length");
+                    let mut j = 0;
+                    while j < elen { assert!(out[j] == exp[j], "count prefix is not compact(old + n)"); j += 1; }
+                    let mut k = 0;
+                    while k < plen - used { assert!(out[elen + k] == bytes[used + k], "existing payload was not preserved"); k += 1; }
+                }
+            }
+        }
+    }
+}
+#[cfg(kani)]
+#[kani::proof]
+#[kani::unwind(8)]
+fn append_any_prefix() { append_any_prefix_body() }
+#[cfg(all(not(kani), psc_verif_replay))]
+#[test]
+fn replay_append_any_prefix() { vk::load_replay(); append_any_prefix_body() }
